@@ -5,6 +5,8 @@ CONSTANTS
   MaxIter = 12
   SeqMaxUnits = 6
   Record = FALSE
+  Lag = 1
+  Repair = FALSE
   Bug = "noretouch"
 VIEW view
 INVARIANT DownClosed
